@@ -1,6 +1,776 @@
-pub fn gen(_seed: u64, _thorough: bool) -> Vec<String> {
-    vec![]
+//! C03 (BC1–BC5 part): block decoding against the format specification.
+//!
+//! case   `B <fmt> <prec> <wblocks> <hex of N blocks>`
+//!        fmt  in bc1 bc2 bc2rgb bc2p bc3 bc3rgb bc3p rxgb bc3n bc4u bc4s bc5u bc5s
+//!        prec in 8 16 32;  the surface is (4*wblocks) x (4*N/wblocks) pixels, blocks in row-major order
+//! result `ok <8 hex digits per block>`: hash of the block's 16 pixels (pixel order, channel order,
+//!        every value as u32: u8 value, u16 value or f32 bit pattern)
+//!
+//! The oracle re-computes, for every pixel and channel, the set of values the *specification* admits
+//! (exact rational interpolation of the endpoints, nearest representable value; both neighbours are
+//! admitted on an exact tie) in u128 integer arithmetic and reports every value outside of it.
+use crate::common::*;
+use dds::*;
+
+#[derive(Clone, Copy, PartialEq, Debug)]
+pub enum Kind {
+    Bc1,
+    Bc2,
+    Bc2Rgb,
+    Bc2P,
+    Bc3,
+    Bc3Rgb,
+    Bc3P,
+    Rxgb,
+    Bc3n,
+    Bc4u,
+    Bc4s,
+    Bc5u,
+    Bc5s,
 }
-pub fn run(_line: &str) -> Option<(String, Vec<String>)> {
-    None
+use Kind::*;
+
+pub const KINDS: [(&str, Kind); 13] = [
+    ("bc1", Bc1),
+    ("bc2", Bc2),
+    ("bc2rgb", Bc2Rgb),
+    ("bc2p", Bc2P),
+    ("bc3", Bc3),
+    ("bc3rgb", Bc3Rgb),
+    ("bc3p", Bc3P),
+    ("rxgb", Rxgb),
+    ("bc3n", Bc3n),
+    ("bc4u", Bc4u),
+    ("bc4s", Bc4s),
+    ("bc5u", Bc5u),
+    ("bc5s", Bc5s),
+];
+
+impl Kind {
+    fn name(self) -> &'static str {
+        KINDS.iter().find(|k| k.1 == self).unwrap().0
+    }
+    fn format(self) -> Format {
+        match self {
+            Bc1 => Format::BC1_UNORM,
+            Bc2 | Bc2Rgb => Format::BC2_UNORM,
+            Bc2P => Format::BC2_UNORM_PREMULTIPLIED_ALPHA,
+            Bc3 | Bc3Rgb => Format::BC3_UNORM,
+            Bc3P => Format::BC3_UNORM_PREMULTIPLIED_ALPHA,
+            Rxgb => Format::BC3_UNORM_RXGB,
+            Bc3n => Format::BC3_UNORM_NORMAL,
+            Bc4u => Format::BC4_UNORM,
+            Bc4s => Format::BC4_SNORM,
+            Bc5u => Format::BC5_UNORM,
+            Bc5s => Format::BC5_SNORM,
+        }
+    }
+    fn channels(self) -> Channels {
+        match self {
+            Bc1 | Bc2 | Bc2P | Bc3 | Bc3P => Channels::Rgba,
+            Bc2Rgb | Bc3Rgb | Rxgb | Bc3n | Bc5u | Bc5s => Channels::Rgb,
+            Bc4u | Bc4s => Channels::Grayscale,
+        }
+    }
+    fn nch(self) -> usize {
+        match self.channels() {
+            Channels::Rgba => 4,
+            Channels::Rgb => 3,
+            _ => 1,
+        }
+    }
+    fn bpb(self) -> usize {
+        match self {
+            Bc1 | Bc4u | Bc4s => 8,
+            _ => 16,
+        }
+    }
+}
+
+// ---------------------------------------------------------------------------------------------
+// specification oracle (integer / rational arithmetic only)
+
+/// integers `v` in `0..=max` nearest to `max*num/den` (two values on an exact tie)
+fn nearest_int(num: u128, den: u128, max: u128) -> Vec<u32> {
+    let n = num * max;
+    let lo = n / den;
+    let r = n % den;
+    if r * 2 < den {
+        vec![lo as u32]
+    } else if r * 2 > den {
+        vec![lo as u32 + 1]
+    } else {
+        vec![lo as u32, lo as u32 + 1]
+    }
+}
+
+/// bit patterns of the binary32 values nearest to `num/den` (0 <= num/den, normal range or zero)
+fn nearest_f32(num: u128, den: u128) -> Vec<u32> {
+    if num == 0 {
+        return vec![0];
+    }
+    // e with 2^e <= num/den < 2^(e+1)
+    let mut e: i32 = 0;
+    if num >= den {
+        while num >= (den << (e + 1) as u32) {
+            e += 1;
+        }
+    } else {
+        e = -1;
+        // num/den < 2^e  <=>  num * 2^-e < den
+        while (num << (-e) as u32) < den {
+            e -= 1;
+        }
+    }
+    assert!(e >= -60 && e <= 60);
+    // m = num/den * 2^(23-e)
+    let sh = 23 - e;
+    let (n, d) = if sh >= 0 { (num << sh as u32, den) } else { (num, den << (-sh) as u32) };
+    let q = n / d;
+    let r = n % d;
+    let enc = |m: u128, e: i32| -> u32 {
+        let (m, e) = if m == 1 << 24 { (1u128 << 23, e + 1) } else { (m, e) };
+        (((e + 127) as u32) << 23) + (m as u32 - (1 << 23))
+    };
+    if r * 2 < d {
+        vec![enc(q, e)]
+    } else if r * 2 > d {
+        vec![enc(q + 1, e)]
+    } else {
+        vec![enc(q, e), enc(q + 1, e)]
+    }
+}
+
+/// what the specification admits for one channel of one pixel
+#[derive(Clone, Debug)]
+enum Want {
+    /// an 8-bit value `v` from the list, widened exactly (`v`, `v*257`, nearest f32 of `v/255`)
+    Eight(Vec<u32>),
+    /// the value `num/den` in [0,1], quantised per precision
+    Frac(u128, u128),
+}
+
+fn widen8(v: u32, prec: u32) -> Vec<u32> {
+    match prec {
+        8 => vec![v],
+        16 => vec![v * 257],
+        _ => nearest_f32(v as u128, 255),
+    }
+}
+
+impl Want {
+    fn admits(&self, prec: u32) -> Vec<u32> {
+        match self {
+            Want::Eight(vs) => vs.iter().flat_map(|&v| widen8(v, prec)).collect(),
+            Want::Frac(n, d) => match prec {
+                8 => nearest_int(*n, *d, 255),
+                16 => nearest_int(*n, *d, 65535),
+                _ => nearest_f32(*n, *d),
+            },
+        }
+    }
+}
+
+fn le16(b: &[u8]) -> u32 {
+    b[0] as u32 | (b[1] as u32) << 8
+}
+
+/// colour part of BC1/BC2/BC3: admitted 8-bit values of [r,g,b,a] for pixel i
+fn spec_color(b: &[u8], i: usize, bc1_modes: bool) -> [Vec<u32>; 4] {
+    let c0 = le16(&b[0..2]);
+    let c1 = le16(&b[2..4]);
+    let idx = (b[4] as u32) | (b[5] as u32) << 8 | (b[6] as u32) << 16 | (b[7] as u32) << 24;
+    let k = (idx / 4u32.pow(i as u32)) % 4;
+    let four = !bc1_modes || c0 > c1;
+    // fields: red = top 5 bits, green = middle 6, blue = low 5
+    let f = |c: u32| [(c / 2048, 31u128), ((c / 32) % 64, 63u128), (c % 32, 31u128)];
+    let (e0, e1) = (f(c0), f(c1));
+    if !four && k == 3 {
+        return [vec![0], vec![0], vec![0], vec![0]];
+    }
+    let mut out: [Vec<u32>; 4] = [vec![], vec![], vec![], vec![255]];
+    for ch in 0..3 {
+        let (a, m) = (e0[ch].0 as u128, e0[ch].1);
+        let bb = e1[ch].0 as u128;
+        let (num, den) = match (k, four) {
+            (0, _) => (a, m),
+            (1, _) => (bb, m),
+            (2, true) => (2 * a + bb, 3 * m),
+            (3, true) => (a + 2 * bb, 3 * m),
+            (2, false) => (a + bb, 2 * m),
+            _ => unreachable!(),
+        };
+        out[ch] = nearest_int(num, den, 255);
+    }
+    out
+}
+
+/// BC4 block: fraction admitted for pixel i. `signed`: SNORM mapped to [0,1] by (v+1)/2.
+fn spec_bc4(b: &[u8], i: usize, signed: bool) -> (u128, u128) {
+    let mut w: u64 = 0;
+    for j in 0..6 {
+        w |= (b[2 + j] as u64) << (8 * j);
+    }
+    let k = ((w / 8u64.pow(i as u32)) % 8) as u128;
+    let (e0, e1, six, m): (u128, u128, bool, u128) = if signed {
+        let s0 = b[0] as i8 as i32;
+        let s1 = b[1] as i8 as i32;
+        let cl = |s: i32| (s.max(-127) + 127) as u128;
+        (cl(s0), cl(s1), s0 > s1, 254)
+    } else {
+        (b[0] as u128, b[1] as u128, b[0] > b[1], 255)
+    };
+    match (k, six) {
+        (0, _) => (e0, m),
+        (1, _) => (e1, m),
+        (k, true) => ((8 - k) * e0 + (k - 1) * e1, 7 * m),
+        (6, false) => (0, 1),
+        (7, false) => (1, 1),
+        (k, false) => ((6 - k) * e0 + (k - 1) * e1, 5 * m),
+    }
+}
+
+/// BC3n: admitted 8-bit z for 8-bit x (=r), y (=g):  z = 0.5*sqrt(1-(2r-1)^2-(2g-1)^2)+0.5
+fn spec_z(r: u32, g: u32) -> Vec<u32> {
+    let x = 2 * r as i64 - 255;
+    let y = 2 * g as i64 - 255;
+    let d = (255 * 255 - x * x - y * y).max(0);
+    // 255*z = (sqrt(d)+255)/2 ; k admitted iff 2k-256 <= sqrt(d) <= 2k-254
+    (0..256i64)
+        .filter(|&k| {
+            let l = 2 * k - 256;
+            let u = 2 * k - 254;
+            (l <= 0 || l * l <= d) && (u >= 0 && u * u >= d)
+        })
+        .map(|k| k as u32)
+        .collect()
+}
+
+fn unpremul(c: u32, a: u32) -> u32 {
+    // as the code has it (no rounding rule is documented): truncating c*255/a, saturated; a = 0 leaves c
+    let a = if a == 0 { 255 } else { a };
+    (c * 255 / a).min(255)
+}
+
+/// admitted values per channel for pixel i of a block
+fn spec_pixel(kind: Kind, b: &[u8], i: usize) -> Vec<Want> {
+    let e8 = |v: Vec<u32>| Want::Eight(v);
+    match kind {
+        Bc1 => spec_color(b, i, true).into_iter().map(e8).collect(),
+        Bc2 | Bc2Rgb | Bc2P | Bc3 | Bc3Rgb | Bc3P | Rxgb | Bc3n => {
+            let mut c = spec_color(&b[8..16], i, false);
+            if matches!(kind, Bc2 | Bc2Rgb | Bc2P) {
+                let mut w: u64 = 0;
+                for j in 0..8 {
+                    w |= (b[j] as u64) << (8 * j);
+                }
+                let a4 = ((w / 16u64.pow(i as u32)) % 16) as u128;
+                c[3] = nearest_int(a4, 15, 255);
+            } else {
+                let (n, d) = spec_bc4(&b[0..8], i, false);
+                c[3] = nearest_int(n, d, 255);
+            }
+            let [r, g, bl, a] = c;
+            // colour channels of BC2/BC3 have no ties (denominators 31*3, 63*3 are odd)
+            match kind {
+                Bc2 | Bc3 => vec![e8(r), e8(g), e8(bl), e8(a)],
+                Bc2Rgb | Bc3Rgb => vec![e8(r), e8(g), e8(bl)],
+                Bc2P | Bc3P => {
+                    let mut out = vec![];
+                    for ch in [&r, &g, &bl] {
+                        let mut s: Vec<u32> = vec![];
+                        for &cv in ch.iter() {
+                            for &av in a.iter() {
+                                s.push(unpremul(cv, av));
+                            }
+                        }
+                        out.push(e8(s));
+                    }
+                    out.push(e8(a));
+                    out
+                }
+                Rxgb => vec![e8(a), e8(g), e8(bl)],
+                Bc3n => {
+                    let mut z = vec![];
+                    for &av in a.iter() {
+                        for &gv in g.iter() {
+                            z.extend(spec_z(av, gv));
+                        }
+                    }
+                    vec![e8(a), e8(g), e8(z)]
+                }
+                _ => unreachable!(),
+            }
+        }
+        Bc4u | Bc4s => {
+            let (n, d) = spec_bc4(b, i, kind == Bc4s);
+            vec![Want::Frac(n, d)]
+        }
+        Bc5u | Bc5s => {
+            let s = kind == Bc5s;
+            let (n0, d0) = spec_bc4(&b[0..8], i, s);
+            let (n1, d1) = spec_bc4(&b[8..16], i, s);
+            // missing channel = 0; 0 in SNORM space is 1/2 in the unsigned mapping
+            vec![Want::Frac(n0, d0), Want::Frac(n1, d1), if s { Want::Frac(1, 2) } else { Want::Frac(0, 1) }]
+        }
+    }
+}
+
+// ---------------------------------------------------------------------------------------------
+// running the implementation
+
+pub fn hash_block(vals: &[u32]) -> u32 {
+    let mut h: u32 = 0x811C_9DC5;
+    for &v in vals {
+        h = (h ^ v).wrapping_mul(16777619);
+        h ^= h >> 15;
+    }
+    h
+}
+
+fn hex_decode(s: &str) -> Option<Vec<u8>> {
+    if s.len() % 2 != 0 {
+        return None;
+    }
+    let b = s.as_bytes();
+    let d = |c: u8| -> Option<u8> {
+        match c {
+            b'0'..=b'9' => Some(c - b'0'),
+            b'a'..=b'f' => Some(c - b'a' + 10),
+            _ => None,
+        }
+    };
+    (0..b.len() / 2).map(|i| Some(d(b[2 * i])? << 4 | d(b[2 * i + 1])?)).collect()
+}
+fn hex_encode(b: &[u8]) -> String {
+    let mut s = String::with_capacity(b.len() * 2);
+    for x in b {
+        s.push_str(&format!("{x:02x}"));
+    }
+    s
+}
+
+/// decode a surface of `wb` x `hb` blocks through the public API; returns per block the 16*nch values
+pub fn decode_blocks(kind: Kind, prec: u32, wb: usize, data: &[u8]) -> Result<Vec<Vec<u32>>, String> {
+    let n = data.len() / kind.bpb();
+    let hb = n / wb;
+    let (w, h) = (4 * wb, 4 * hb);
+    let p = match prec {
+        8 => Precision::U8,
+        16 => Precision::U16,
+        _ => Precision::F32,
+    };
+    let color = ColorFormat::new(kind.channels(), p);
+    let bpp = color.bytes_per_pixel() as usize;
+    let mut out = vec![0xA5u8; w * h * bpp];
+    let view = ImageViewMut::new(&mut out, Size::new(w as u32, h as u32), color).ok_or("view")?;
+    let mut reader: &[u8] = data;
+    decode(&mut reader, view, kind.format(), &DecodeOptions::default()).map_err(|e| format!("{e:?}"))?;
+    if !reader.is_empty() {
+        return Err("reader-not-at-end".into());
+    }
+    let nch = kind.nch();
+    let bytes = bpp / nch;
+    let mut res = Vec::with_capacity(n);
+    for blk in 0..n {
+        let (bx, by) = (blk % wb, blk / wb);
+        let mut vals = Vec::with_capacity(16 * nch);
+        for i in 0..16 {
+            let (x, y) = (bx * 4 + i % 4, by * 4 + i / 4);
+            let o = (y * w + x) * bpp;
+            for c in 0..nch {
+                let q = &out[o + c * bytes..o + (c + 1) * bytes];
+                vals.push(match bytes {
+                    1 => q[0] as u32,
+                    2 => u16::from_le_bytes([q[0], q[1]]) as u32,
+                    _ => u32::from_le_bytes([q[0], q[1], q[2], q[3]]),
+                });
+            }
+        }
+        res.push(vals);
+    }
+    Ok(res)
+}
+
+pub fn run(line: &str) -> Option<(String, Vec<String>)> {
+    let t = toks(line);
+    if t.len() != 5 || t[0] != "B" {
+        return None;
+    }
+    let kind = KINDS.iter().find(|k| k.0 == t[1])?.1;
+    let prec: u32 = t[2].parse().ok()?;
+    if ![8, 16, 32].contains(&prec) {
+        return None;
+    }
+    let wb: usize = t[3].parse().ok()?;
+    let data = hex_decode(t[4])?;
+    let bpb = kind.bpb();
+    if wb == 0 || data.is_empty() || data.len() % bpb != 0 || (data.len() / bpb) % wb != 0 {
+        return None;
+    }
+    let blocks = match decode_blocks(kind, prec, wb, &data) {
+        Ok(b) => b,
+        Err(e) => return Some((format!("err {e}"), vec![format!("decode failed: {e}")])),
+    };
+    let nch = kind.nch();
+    let mut res = String::from("ok ");
+    let mut oracle = vec![];
+    for (bi, vals) in blocks.iter().enumerate() {
+        res.push_str(&format!("{:08x}", hash_block(vals)));
+        let b = &data[bi * bpb..(bi + 1) * bpb];
+        for i in 0..16 {
+            let want = spec_pixel(kind, b, i);
+            for c in 0..nch {
+                let got = vals[i * nch + c];
+                let adm = want[c].admits(prec);
+                if !adm.contains(&got) && oracle.len() < 8 {
+                    let f = |v: u32| if prec == 32 { format!("0x{v:08x}") } else { format!("{v}") };
+                    oracle.push(format!(
+                        "{} prec {} block {} pixel {} channel {}: decoded {} but the specification gives {} (block #{} of the case)",
+                        kind.name(),
+                        prec,
+                        hex_encode(b),
+                        i,
+                        c,
+                        f(got),
+                        adm.iter().map(|&v| f(v)).collect::<Vec<_>>().join(" or "),
+                        bi
+                    ));
+                }
+            }
+        }
+    }
+    Some((res, oracle))
+}
+
+// ---------------------------------------------------------------------------------------------
+// generation
+
+struct Out {
+    lines: Vec<String>,
+    batch: usize,
+}
+impl Out {
+    fn emit(&mut self, kind: Kind, prec: u32, blocks: &[Vec<u8>]) {
+        const WBS: [usize; 7] = [8, 4, 16, 2, 64, 1, 32];
+        for (j, ch) in blocks.chunks(self.batch).enumerate() {
+            let mut wb = WBS[(j + self.lines.len()) % 7];
+            if ch.len() % wb != 0 {
+                wb = 1;
+            }
+            let mut hex = String::with_capacity(ch.len() * 32);
+            for b in ch {
+                hex.push_str(&hex_encode(b));
+            }
+            self.lines.push(format!("B {} {} {} {}", kind.name(), prec, wb, hex));
+        }
+    }
+}
+
+fn pack565(r: u32, g: u32, b: u32) -> u16 {
+    ((r << 11) | (g << 5) | b) as u16
+}
+/// 2-bit indices: pixel i gets (i + j) % 4
+fn idx2(j: u32) -> [u8; 4] {
+    let mut w: u32 = 0;
+    for i in 0..16 {
+        w |= ((i + j) % 4) << (2 * i);
+    }
+    w.to_le_bytes()
+}
+/// 3-bit indices: pixel i gets (i + j) % 8
+fn idx3(j: u64) -> [u8; 6] {
+    let mut w: u64 = 0;
+    for i in 0..16u64 {
+        w |= ((i + j) % 8) << (3 * i);
+    }
+    let b = w.to_le_bytes();
+    [b[0], b[1], b[2], b[3], b[4], b[5]]
+}
+fn color_block(c0: u16, c1: u16, idx: [u8; 4]) -> Vec<u8> {
+    let mut v = vec![];
+    v.extend(c0.to_le_bytes());
+    v.extend(c1.to_le_bytes());
+    v.extend(idx);
+    v
+}
+fn bc4_block(e0: u8, e1: u8, idx: [u8; 6]) -> Vec<u8> {
+    let mut v = vec![e0, e1];
+    v.extend(idx);
+    v
+}
+fn rand_bytes(rng: &mut Rng, n: usize) -> Vec<u8> {
+    let mut v = Vec::with_capacity(n);
+    while v.len() < n {
+        v.extend(rng.next().to_le_bytes());
+    }
+    v.truncate(n);
+    v
+}
+/// pairs (a,b) of 5-bit values with a>b, resp. a<b
+fn ordered_pairs(gt: bool) -> Vec<(u32, u32)> {
+    let mut v = vec![];
+    for a in 0..32 {
+        for b in 0..32 {
+            if (gt && a > b) || (!gt && a < b) {
+                v.push((a, b));
+            }
+        }
+    }
+    v
+}
+
+/// the 8-byte colour blocks of the decomposition: every 6-bit green pair x both orders of the packed
+/// colours (forced by red) x every red pair (in its forced order) x every blue pair in both orders;
+/// `rots`: index rotations used per endpoint combination (4 = every index at every position)
+fn color_decomposition(rots: &[u32], rng: &mut Rng) -> Vec<Vec<u8>> {
+    let gt = ordered_pairs(true);
+    let lt = ordered_pairs(false);
+    let mut v = vec![];
+    for p in 0..4096u32 {
+        let (g0, g1) = (p / 64, p % 64);
+        let q = (p * 5 + 3) % 1024;
+        let (b0, b1) = (q / 32, q % 32);
+        for (o, list) in [&gt, &lt].into_iter().enumerate() {
+            let (r0, r1) = list[(p as usize + 17 * o) % list.len()];
+            for &j in rots {
+                let j = if rots.len() == 1 { (p + j) % 4 } else { j };
+                v.push(color_block(pack565(r0, g0, b0), pack565(r1, g1, b1), idx2(j)));
+            }
+        }
+        // equal red: the order is decided by green (and blue when green is equal too)
+        let r = p % 32;
+        v.push(color_block(pack565(r, g0, b0), pack565(r, g1, b1), idx2(p % 4)));
+    }
+    // equal red and green: order decided by blue; all blue pairs
+    for q in 0..1024u32 {
+        let (b0, b1) = (q / 32, q % 32);
+        let (r, g) = (q % 32, (q * 7) % 64);
+        v.push(color_block(pack565(r, g, b0), pack565(r, g, b1), idx2(q % 4)));
+    }
+    // equal colours, neighbours, extremes
+    for t in 0..256u32 {
+        let c = if t < 8 { [0u16, 1, 0x7FFF, 0x8000, 0xFFFE, 0xFFFF, 0x001F, 0x07E0][t as usize] } else { rng.next() as u16 };
+        v.push(color_block(c, c, idx2(t % 4)));
+        v.push(color_block(c, c.wrapping_add(1), idx2(t % 4)));
+        v.push(color_block(c.wrapping_add(1), c, idx2(t % 4)));
+    }
+    v
+}
+
+/// (a,b) with 2a+b = n, a,b <= max
+fn third_pair(n: u32, max: u32) -> (u32, u32) {
+    let a = (n / 2).min(max);
+    let mut a = a;
+    while n - 2 * a > max {
+        a += 1;
+    }
+    while 2 * a > n {
+        a -= 1;
+    }
+    (a, n - 2 * a)
+}
+
+pub fn gen(seed: u64, thorough: bool) -> Vec<String> {
+    let mut rng = Rng::new(seed ^ 0xC03);
+    let mut out = Out { lines: vec![], batch: 64 };
+    let precs = [8u32, 16, 32];
+    let color_kinds = [Bc1, Bc2, Bc2Rgb, Bc2P, Bc3, Bc3Rgb, Bc3P, Rxgb, Bc3n];
+
+    // --- fixed regression blocks -----------------------------------------------------------
+    // BC3 colour with color0 <= color1 (must still be 4-colour), BC1 same block (3-colour + transparent)
+    for &p in &precs {
+        let cb = color_block(0x0000, 0xFFFF, [0xE4, 0x1B, 0x4E, 0xB1]);
+        out.emit(Bc1, p, &[cb.clone()]);
+        for k in [Bc2, Bc2Rgb, Bc3, Bc3Rgb, Bc3P, Rxgb, Bc3n, Bc2P] {
+            let mut b = vec![0xFF, 0x00, 0x88, 0xC6, 0xFA, 0x53, 0x97, 0x1F];
+            b.extend(cb.clone());
+            out.emit(k, p, &[b]);
+        }
+        // BC4: 1/255 reached as endpoint and as interpolant; SNORM -128 / -127
+        out.emit(Bc4u, p, &[bc4_block(1, 1, idx3(0)), bc4_block(1, 0, idx3(0)), bc4_block(0, 255, idx3(3))]);
+        out.emit(Bc4s, p, &[bc4_block(0x81, 0x80, idx3(0)), bc4_block(0x80, 0x81, idx3(0)), bc4_block(0x80, 0x7F, idx3(1)), bc4_block(0x7F, 0x80, idx3(5))]);
+    }
+
+    // --- BC1/2/3 colour decomposition --------------------------------------------------------
+    let full = color_decomposition(&[0, 1, 2, 3], &mut rng);
+    let one = color_decomposition(&[0], &mut rng);
+    for &k in &color_kinds {
+        for &p in &precs {
+            let all_rot = thorough || (p == 8 && matches!(k, Bc1 | Bc2 | Bc3));
+            let light = !thorough && p != 8 && !matches!(k, Bc1 | Bc2 | Bc3);
+            let cbs = if all_rot { &full } else { &one };
+            let mut blocks = Vec::with_capacity(cbs.len());
+            for (n, cb) in cbs.iter().enumerate() {
+                if light && n % 4 != (p as usize / 16) {
+                    continue;
+                }
+                if k == Bc1 {
+                    blocks.push(cb.clone());
+                } else {
+                    let mut b = rand_bytes(&mut rng, 8);
+                    b.extend(cb);
+                    blocks.push(b);
+                }
+            }
+            out.emit(k, p, &blocks);
+        }
+    }
+
+    // --- BC2 explicit alpha: every nibble value at every position -----------------------------
+    for &k in &[Bc2, Bc2P] {
+        for &p in &precs {
+            let mut blocks = vec![];
+            for j in 0..16u64 {
+                let mut w: u64 = 0;
+                for i in 0..16u64 {
+                    w |= ((i + j) % 16) << (4 * i);
+                }
+                let mut b = w.to_le_bytes().to_vec();
+                b.extend(rand_bytes(&mut rng, 8));
+                blocks.push(b);
+            }
+            out.emit(k, p, &blocks);
+        }
+    }
+
+    // --- BC4 / BC5 / BC3 alpha: all 256 x 256 endpoint pairs, every index at rotating positions -
+    // one block shows all 8 palette entries; `rots` rotations move every entry over every position
+    let bc4_all = |rots: u64, stride: usize, phase: usize| -> Vec<Vec<u8>> {
+        let mut v = vec![];
+        for p in (phase..65536usize).step_by(stride) {
+            for j in 0..rots {
+                let j = if rots == 1 { (p as u64 + p as u64 / 256) % 8 } else { j };
+                v.push(bc4_block((p / 256) as u8, (p % 256) as u8, idx3(j)));
+            }
+        }
+        v
+    };
+    for &k in &[Bc4u, Bc4s] {
+        for &p in &precs {
+            let blocks = if thorough { bc4_all(8, 1, 0) } else { bc4_all(1, 1, 0) };
+            out.emit(k, p, &blocks);
+        }
+    }
+    for &k in &[Bc5u, Bc5s] {
+        for &p in &precs {
+            // red half walks all pairs, green half walks them in another order
+            let halves = if thorough { bc4_all(2, 1, 0) } else { bc4_all(1, 2, (p as usize / 16) % 2) };
+            let n = halves.len();
+            let mut blocks = vec![];
+            for (i, h) in halves.iter().enumerate() {
+                let mut b = h.clone();
+                b.extend(&halves[(i * 7 + n / 3) % n]);
+                blocks.push(b);
+            }
+            out.emit(k, p, &blocks);
+        }
+    }
+    // BC3 alpha half = BC4 UNORM at 8 bit
+    for &k in &[Bc3, Bc3P, Rxgb, Bc3n] {
+        for &p in &precs {
+            let halves = if thorough {
+                bc4_all(1, 1, 0)
+            } else if k == Bc3 && p == 8 {
+                bc4_all(1, 1, 0)
+            } else {
+                bc4_all(1, 16, (p as usize / 8 + k as usize) % 16)
+            };
+            let blocks: Vec<Vec<u8>> = halves
+                .iter()
+                .map(|h| {
+                    let mut b = h.clone();
+                    b.extend(rand_bytes(&mut rng, 8));
+                    b
+                })
+                .collect();
+            out.emit(k, p, &blocks);
+        }
+    }
+
+    // --- variants: every (alpha value, colour value) combination -------------------------------
+    // alpha endpoints (2t, 2t+1) selected by index 0/1; colour pair chosen so that the palette has the
+    // third colour of numerator n (green 0..189, red/blue 0..93); pixel i: alpha index i%2, colour (i/2)%4
+    {
+        let mut blocks = vec![];
+        for t in 0..128u32 {
+            for n in 0..190u32 {
+                let (g0, g1) = third_pair(n, 63);
+                let (r0, r1) = third_pair((n + t) % 94, 31);
+                let (b0, b1) = third_pair((n * 3 + t) % 94, 31);
+                let mut aw: u64 = 0;
+                let mut cw: u32 = 0;
+                for i in 0..16u32 {
+                    aw |= ((i % 2) as u64) << (3 * i);
+                    cw |= ((i / 2 + n) % 4) << (2 * i);
+                }
+                let ab = aw.to_le_bytes();
+                let mut b = vec![(2 * t) as u8, (2 * t + 1) as u8, ab[0], ab[1], ab[2], ab[3], ab[4], ab[5]];
+                b.extend(color_block(pack565(r0, g0, b0), pack565(r1, g1, b1), cw.to_le_bytes()));
+                blocks.push(b);
+            }
+        }
+        for &k in &[Bc3n, Bc3P, Rxgb] {
+            for &p in &precs {
+                if p == 8 || thorough {
+                    out.emit(k, p, &blocks);
+                } else {
+                    let sub: Vec<Vec<u8>> = blocks.iter().skip(p as usize / 16).step_by(16).cloned().collect();
+                    out.emit(k, p, &sub);
+                }
+            }
+        }
+        // BC2 premultiplied: 16 alpha values x colour numerators
+        let mut b2 = vec![];
+        for a4 in 0..16u64 {
+            for n in 0..190u32 {
+                let (g0, g1) = third_pair(n, 63);
+                let (r0, r1) = third_pair(n % 94, 31);
+                let (b0, b1) = third_pair((n * 3 + 1) % 94, 31);
+                let mut w: u64 = 0;
+                for i in 0..16u64 {
+                    w |= (if i % 8 < 4 { a4 } else { (a4 + 1 + i) % 16 }) << (4 * i);
+                }
+                let mut b = w.to_le_bytes().to_vec();
+                b.extend(color_block(pack565(r0, g0, b0), pack565(r1, g1, b1), idx2(n % 4)));
+                b2.push(b);
+            }
+        }
+        for &p in &precs {
+            out.emit(Bc2P, p, &b2);
+        }
+    }
+
+    // --- PRNG full blocks ----------------------------------------------------------------------
+    let nrand = if thorough { 65536 } else { 1024 };
+    for &(_, k) in &KINDS {
+        for &p in &precs {
+            let blocks: Vec<Vec<u8>> = (0..nrand)
+                .map(|t| {
+                    let mut b = rand_bytes(&mut rng, k.bpb());
+                    // a quarter with equal / adjacent endpoints so that both modes and the boundary are hit
+                    match t % 8 {
+                        0 => {
+                            let o = k.bpb() - 8;
+                            if matches!(k, Bc4u | Bc4s | Bc5u | Bc5s) {
+                                b[o + 1] = b[o];
+                            } else {
+                                b[o + 2] = b[o];
+                                b[o + 3] = b[o + 1];
+                            }
+                        }
+                        1 => {
+                            if k.bpb() == 16 {
+                                b[1] = b[0].wrapping_add(1);
+                            }
+                        }
+                        _ => {}
+                    }
+                    b
+                })
+                .collect();
+            out.emit(k, p, &blocks);
+        }
+    }
+    out.lines
 }
